@@ -483,6 +483,13 @@ class HistParticle(InterpolationParticle):
     def n_points(self):
         return self.interp_N - 1
 
+    def get_point_values(self):
+        # one value per bin whatever with_bound is; padded as the bin lookup expects
+        p = self.point_value()
+        v_r = [0.0] + [tf.math.real(i) for i in p] + [0.0]
+        v_i = [0.0] + [tf.math.imag(i) for i in p] + [0.0]
+        return self.points, v_r, v_i
+
 
 @register_particle("hist_idx")
 class InterpHistIdx(HistParticle):
